@@ -189,12 +189,11 @@ class Run:
         return sorted(set(lock.get(self.pid, [])) - have)
 
     def finish(self, check_lock=True):
-        if check_lock:
-            missing = self.lock_missing()
-            if missing:
-                # a generator that silently produces fewer VCs is a checker crash, not a pass (DESIGN 2.2 guard i)
-                print(f"CHECKER-CRASH property={self.pid}: {len(missing)} locked obligations were not generated: {missing[:6]}")
-                return EXIT_CRASH
+        # a generator that silently produces fewer VCs is a checker crash, not a pass (DESIGN 2.2 guard i) - but violations found
+        # by the obligations that WERE generated, and by the bounded layer, are still reported (and decide the exit code)
+        missing = self.lock_missing() if check_lock else []
+        for nm in missing:
+            self.notes.append(f"locked obligation not generated from the current source: {nm}")
         self._link_inputs()
         # auxiliary (construction-conformance) obligations that are refuted withdraw the proof layer for that function: the
         # decision is the bounded stand-in's; if it found nothing the result is UNDECIDED (never a pass, never a violation).
@@ -244,6 +243,9 @@ class Run:
               f"known={len(self.known_hits)} undecided={len(self.undecided)} wall={wall:.1f}s")
         if self.violations:
             return EXIT_VIOLATION
+        if missing:
+            print(f"CHECKER-CRASH property={self.pid}: {len(missing)} locked obligations were not generated: {missing[:6]}")
+            return EXIT_CRASH
         if self.undecided:
             for a, b in self.undecided:
                 print(f"UNDECIDED obligation={a} reason={b}")
